@@ -359,6 +359,14 @@ pub enum EvOp {
     /// The server stops (all clients are dropped) / starts again.
     StopServer,
     StartServer,
+    /// The connection of `c` drops after this round's client messages were handed to the server
+    /// but before the server's next frame.
+    LateDisconnect(u8),
+    /// Custom authorization flow: the game inserts `ClientEntityMap` on the connection entity
+    /// ahead of `AuthorizedClient` (as the documentation of the auth method shows).
+    PreMap(u8),
+    /// Re-insert `Replicated` on an entity that already has it.
+    ReMark(u8),
 }
 
 impl EvOp {
@@ -384,6 +392,9 @@ impl EvOp {
             EvOp::Authorize(c) => format!("authorize c{c}"),
             EvOp::StopServer => "stop server".into(),
             EvOp::StartServer => "start server".into(),
+            EvOp::LateDisconnect(c) => format!("disconnect c{c} after its messages reached the server"),
+            EvOp::PreMap(c) => format!("insert ClientEntityMap on c{c} before authorization"),
+            EvOp::ReMark(s) => format!("re-insert Replicated on e{}", s + 1),
         }
     }
 }
@@ -487,6 +498,10 @@ pub struct EvExec {
     events_emitted: u32,
     events_observed: u32,
     ops_applied: u32,
+    late_disconnect: Option<usize>,
+    premapped: BTreeSet<usize>,
+    /// connection entities that were closed: events attributed to them later are violations
+    closed_conns: BTreeSet<u64>,
 }
 
 const UPD: usize = 0;
@@ -539,6 +554,14 @@ impl EvCell {
             EvOp::Connect(c) => !Self::connected(x, c as usize) && x.sim.server_running(),
             EvOp::StopServer => x.sim.server_running(),
             EvOp::StartServer => !x.sim.server_running(),
+            EvOp::LateDisconnect(c) => Self::connected(x, c as usize),
+            EvOp::PreMap(c) => {
+                self.cfg.auth == Auth::Custom
+                    && Self::connected(x, c as usize)
+                    && !x.sim.is_authorized(c as usize)
+                    && !x.premapped.contains(&(c as usize))
+            }
+            EvOp::ReMark(s) => x.sim.marked(s),
             EvOp::Disconnect(c) => Self::connected(x, c as usize),
             EvOp::Authorize(c) => {
                 self.cfg.auth == Auth::Custom
@@ -571,9 +594,28 @@ impl EvCell {
             EvOp::Nop => {}
             EvOp::World(op) => x.sim.apply_op(op),
             EvOp::Connect(c) => x.sim.connect(c as usize),
-            EvOp::Disconnect(c) => x.sim.disconnect(c as usize),
+            EvOp::Disconnect(c) => {
+                if let Some(conn) = x.sim.clients[c as usize].conn {
+                    x.closed_conns.insert(conn.to_bits());
+                }
+                x.sim.disconnect(c as usize)
+            }
             EvOp::StopServer => x.sim.stop_server(),
             EvOp::StartServer => x.sim.start_server(),
+            EvOp::LateDisconnect(c) => x.late_disconnect = Some(c as usize),
+            EvOp::PreMap(c) => {
+                let conn = x.sim.clients[c as usize].conn.unwrap();
+                x.sim
+                    .server
+                    .world_mut()
+                    .entity_mut(conn)
+                    .insert(bevy_replicon::prelude::ClientEntityMap::default());
+                x.premapped.insert(c as usize);
+            }
+            EvOp::ReMark(s) => {
+                let e = x.sim.alive(s).unwrap();
+                x.sim.server.world_mut().entity_mut(e).insert(Replicated);
+            }
             EvOp::Authorize(c) => {
                 let conn = x.sim.clients[c as usize].conn.unwrap();
                 x.sim.server.world_mut().entity_mut(conn).insert(AuthorizedClient);
@@ -947,6 +989,18 @@ impl EvCell {
                     .feat(format!("kind:{kind:?}")));
             }
             let (c, _session, conn) = em.sender.unwrap();
+            if (self.oracles.c05 || self.oracles.c09) && o.from.is_some_and(|f| x.closed_conns.contains(&f)) {
+                return Err(self
+                    .v(
+                        "event-from-closed-connection",
+                        format!(
+                            "server logic observed {kind:?} #{} from {} although that connection had been closed before the frame",
+                            o.n,
+                            o.from.map(fmt_bits).unwrap_or_default()
+                        ),
+                    )
+                    .feat(format!("kind:{kind:?}")));
+            }
             if self.oracles.c05 {
                 if o.from != Some(conn) {
                     return Err(self
@@ -1184,6 +1238,9 @@ impl Scenario for EvCell {
             events_emitted: 0,
             events_observed: 0,
             ops_applied: 0,
+            late_disconnect: None,
+            premapped: BTreeSet::new(),
+            closed_conns: BTreeSet::new(),
         };
         let r = (|| -> Result<(), Violation> {
             self.lockstep_round(&mut x, true)?;
@@ -1237,6 +1294,7 @@ impl Scenario for EvCell {
                 }
                 if self.env.hold_mutations && !x.sim.clients[c].s2c[MUT].is_empty() {
                     alts.push(("hold mutations".into(), 1));
+                    alts.push(("drop mutations".into(), 1));
                 }
                 Some(ChoicePoint::env("upd", alts))
             }
@@ -1308,6 +1366,14 @@ impl Scenario for EvCell {
                 if alt > 0 {
                     x.line.push_str(&format!(" c{c}->server: {label};"));
                 }
+                if x.late_disconnect == Some(c) {
+                    x.late_disconnect = None;
+                    if let Some(conn) = x.sim.clients[c].conn {
+                        x.closed_conns.insert(conn.to_bits());
+                    }
+                    x.sim.disconnect(c);
+                    x.line.push_str(&format!(" c{c} dropped after delivery;"));
+                }
                 self.advance(x);
             }
             Phase::Upd(c) => {
@@ -1316,6 +1382,10 @@ impl Scenario for EvCell {
                 if label == "hold mutations" {
                     x.line.push_str(" mutations held;");
                     x.sim.deliver_to_client(c, UPD, &Sel::Prefix(n));
+                } else if label == "drop mutations" {
+                    x.line.push_str(" mutations lost;");
+                    x.sim.deliver_to_client(c, UPD, &Sel::Prefix(n));
+                    x.sim.clients[c].s2c[MUT].clear();
                 } else {
                     let k = n - alt;
                     if alt > 0 {
